@@ -110,6 +110,31 @@ CHECKS.update({
         note=GEN_NOTE, ref="7 (C17)"),
 })
 
+CHECKS.update({
+    "C09": dict(
+        technique="TLA+ implementation-shaped model of the size-cache protocol (GenCodec: recompute variant and concurrent readers model-checked, templates-as-found kept as expected violation) "
+                  "+ TLC trace validation of operation histories against the fresh-copy oracle, with the model's cache word run along the trace (TraceGen!NextMc, guarded deviation Stale)",
+        text="seeded random histories over {set, clear, grow, shrink, set nested, Size, Marshal, MarshalTo, csproto.Size/Marshal, runtime Size/Marshal, Unmarshal, Reset, Clone} on generated "
+             "types of three flavours; after every step the object is projected and a fresh deep copy is built by the walkers and marshaled - every Size/Marshal must equal the fresh copy's; "
+             "the observed cache word must equal the implementation model's prediction (drift) and the known stale-cache deviation only explains events the model predicts; N goroutines call "
+             "Size/Marshal on a frozen message under the race detector.",
+        note=GEN_NOTE + "; the size-cache word is read with reflect/unsafe from the generated struct (sizeCache / XXX_sizecache)", ref="7 (C09), Appendix D"),
+    "C10": dict(
+        technique="TLC trace validation of Unmarshal -> project -> clobber/truncate/recycle the input buffer -> project events on generated types (TraceGen!A10) and of lazyproto accessor values "
+                  "across clobbering (TraceLazy); pointer-overlap of every string/bytes value with the input buffer measured by the harness",
+        text="for every corpus type and value with variable-length content (strings, bytes, repeated, map keys/values, oneof members, nested, unknown fields) decoded in the default mode, the "
+             "projected message must be unchanged after the caller overwrites, truncates or reuses its buffer and no value may point into it; types generated with enableunsafedecode are "
+             "exempt; every lazyproto accessor in safe mode likewise.",
+        note=GEN_NOTE, ref="7 (C10)"),
+    "C20": dict(
+        technique="TLA+ spec (Tools: HexRef, streaming automaton, DumpRef over Wire!ParseAll) + TLC model checking (MCTools: the two formulations of the annotated-hex language agree on all "
+                  "texts up to 6/8 symbols) + TLC trace validation of recorded ParseAnnotatedHex calls and protodump runs",
+        text="the real parser is run on every text of the bounded domain (six symbol classes with rotating concrete representatives incl. tab, CR, NBSP, U+2003, upper/lower case digits) and on "
+             "random renderings/corruptions of random byte strings; protodump (built from /repo) is run on random messages x expand/strings path sets x {-file, redirected stdin, pipe} and on "
+             "malformed variants; its output is parsed back into (indent, tag, wire type, value) tuples and must equal DumpRef, malformed input must give a non-zero exit without a crash.",
+        note="trusted: TLC, the harness's character classification and output parser; protodump's exit status and stderr as sensors", ref="7 (C20)"),
+})
+
 NOT_YET = {
     "C04": "check not built yet (generated-code corpus pipeline in progress)",
     "C05": "check not built yet (generated-code corpus pipeline in progress)",
